@@ -315,11 +315,16 @@ m("C05", "proof",
   "exactly its initial content; C05_call_effect / C05_op_effect / C05_file_data_effect — for every state and "
   "packet, what one call can leave at any path is: what was there; nothing (disposition delete); the old "
   "content with exactly this call's File Data payload written at exactly its offset; an empty file if this "
-  "call's packet is a Metadata PDU — no other bytes, offset, second write or truncation; C05_wf_all_histories.",
+  "call's packet is a Metadata PDU — no other bytes, offset, second write or truncation; C05_wf_all_histories; "
+  "C05_history_effect — FOLDED OVER EVERY HISTORY: for any sequence of operations from any well-formed state and "
+  "every path, the final content is reached from the initial one by one such step per operation, in order "
+  "(Reach); C05_history_without_data — a history without File Data and Metadata PDUs leaves every file as it was "
+  "or deletes it.",
   "Lean 4 theorems (Hoare triples over every method of the receiver: every-history frame and per-call write "
   "model; frame lemmas) + differential write-model oracle",
-  "§6 C05, §11.3b", ["the per-call write model is a theorem for every state and input; that the file equals the "
-                     "fold of those per-call effects over a history is their composition (oracle-checked)"])
+  "§6 C05, §11.3b", ["which of the allowed alternatives a call takes (written or not: step, lost-segment "
+                     "bookkeeping, injected rejections) is decided by the model and checked against the code by "
+                     "the correspondence and the write-model oracle, not stated in the fold theorem"])
 m("C06", "proof",
   "acknowledged-mode destination sessions on grid-segmented files: tiles permuted, lost, duplicated, late; "
   "Metadata and EOF at any position; immediate and deferred mode; max_packet_len forcing multi-PDU sequences; "
